@@ -1,14 +1,14 @@
 (* C07Examples.v — non-vacuity: concrete inputs meet the hypotheses of the C07 theorems. *)
 From V Require Import NegotiateSpec NegotiateProofs AcceptParseProofs QualityProofs.
 
-(* text/plain;q=0.5, text/*;q=0.8, */*;q=0.8 *)
+(* header: text/plain q=0.5, text/STAR q=0.8, STAR/STAR q=0.8 *)
 Definition ex_lines : list bytes :=
   [[116;101;120;116;47;112;108;97;105;110;59;113;61;48;46;53;44;32;116;101;120;116;47;42;59;113;61;48;46;56;44;32;42;47;42;59;113;61;48;46;56]].
 Definition ex_offers : list bytes :=
   [[97;112;112;108;105;99;97;116;105;111;110;47;106;115;111;110]; [116;101;120;116;47;104;116;109;108]; [116;101;120;116;47;112;108;97;105;110]].
 
 Example ex_parse : exists specs, parse_accept ex_lines = Some specs /\ length specs = 3 /\
-  (* text/html wins: matched by text/* (q 0.8, more specific than */*) although application/json is offered first *)
+  (* text/html wins: matched by the text wildcard range, q 0.8, more specific than the full wildcard, although application/json is offered first *)
   negotiate_content_type specs ex_offers [] = [116;101;120;116;47;104;116;109;108].
 Proof. eexists. split; [vm_compute; reflexivity|]. split; reflexivity. Qed.
 
